@@ -2,9 +2,9 @@
 harness/conn.py."""
 from harness import conn
 
-RULE = ("corpus first: regression replays of the repaired defects F-C10a/b/c/e/f/g/j, F-C10d in external-loop mode, F-C10h on the "
-        "error paths (must pass; a rejected one is reported as C10-regression) and the witnesses of the open findings F-C10d (direct-write), "
-        "F-C10h (connect() on a live connection), F-C10i (Link/ConnRefuted.v; must be rejected, reported with their signatures); "
+RULE = ("corpus first: regression replays of the repaired defects F-C10a/b/c/d/e/f/g/j and F-C10h on the error paths (must pass; a "
+        "rejected one is reported as C10-regression) and the witnesses of the open findings F-C10h (connect() on a live connection), "
+        "F-C10i, F-C10k (Link/ConnRefuted.v; must be rejected, reported with their signatures); "
         "exhaustive: connect() followed by every list of 3 operations (quick; thorough: also 4 over 11) out of 17-21 (connect, "
         "reconnect ok/failing, disconnect plain/blocked/with reconnecting on_disconnect, publish plain/blocked, loop_write "
         "plain/partial+blocked/failing, CONNACK accepted/refused, EOF, unknown packet, server DISCONNECT, keepalive due, ping overdue, "
@@ -26,8 +26,7 @@ ASSUMPTIONS = [
     "one broker packet per loop_read(): no QoS>0 messages stored (max_packets = 1); inbound packets arrive whole (C05 owns fragmentation)",
     "partial writes are of the shape all-but-the-last-byte (C06 owns general partial writes); keepalive timing is an input (C08 owns the clock)",
     "the result code returned by publish() is not compared when a callback called reconnect() during that publish() (per-message results: C01/C07)",
-    "exclusions of the partial theorems, each an open finding: D in direct-write mode on_socket_open makes no API call, in external-loop mode "
-    "it does not call reconnect(); R on_socket_close/unregister_write call no disconnect()/reconnect(), register_write no reconnect(); "
+    "exclusions of the partial theorems, each an open finding: D on_socket_open does not call reconnect() (F-C10k); R on_socket_close/unregister_write call no disconnect()/reconnect(), register_write no reconnect(); "
     "observations at the entry of on_socket_close/on_socket_unregister_write are not judged while connect()/reconnect() replaces a "
     "connection (F-C10h)",
 ]
